@@ -58,6 +58,8 @@ def cases(draw, tier):
         else:
             bulk = "matrix"
             unit = draw(st.sampled_from([1.0, 1.0, 1.0, 1e-3, 1e-6, 1e3]))
+            if isinstance(sc, dict) and sc["cls"].startswith("SecondMoment") and draw(st.integers(0, 2)) == 0:
+                unit = "level_9e9"  # readings of a 9.19 GHz standard: a huge level, which this user score depends on
     mil = D.weighted(draw, [(6, st.integers(2 * msl, 2 * msl + 14)), (2, st.just(2 * msl)), (1, st.just(1000))])
     long_series = n >= 150
     scale = draw(st.sampled_from([0.5, 0.0, 0.2, 1.0, 2.0, None]))
@@ -81,7 +83,9 @@ def cases(draw, tier):
         cov = isinstance(sc, dict) and "GaussianCovCost" in str(sc)
         X, _ = draw(D.structured_matrix(n, p, boundary_positions=(1, msl, n - msl, n - 2), max_shifts=1,
                                         **({"exact": False, "min_noise_scale": 0.5} if cov else {})))
-        if unit != 1.0:
+        if unit == "level_9e9":
+            X = [[v + 9.19e9 for v in row] for row in X]
+        elif unit != 1.0:
             X = [[v * unit for v in row] for row in X]
     case["X"] = X
     return case
@@ -123,6 +127,8 @@ def check(case):
     history = case.get("history") if case.get("n_train") != "same_buffer" else None
     try:
         return _check(case, params, X, n, p, msl, mil, Xtrain, Xpred, history)
+    except RecursionError:
+        raise  # never a documented outcome (and a subclass of RuntimeError)
     except RuntimeError as e:
         if "positive definite" in str(e) and "GaussianCovCost" in str(params["anomaly_score"]):
             return {"nontrivial": False, "classes": ["not_pd_error_accepted"]}
@@ -240,6 +246,37 @@ def _check(case, params, X, n, p, msl, mil, Xtrain, Xpred, history):
     return {"nontrivial": bool(events), "classes": classes}
 
 
+# ------------------------------------------------------------------ very many anomalies
+
+
+def many_cells(tier):
+    """Thousands of samples with more than a thousand reported anomalies whose strengths decay along the series (a damped,
+    ringing signal): the greedy selection runs for > 1000 rounds. Deterministic data (decaying one-sample bursts + seeded noise)."""
+    cells = [(3902, 3, 1, 6, 0.999), (5000, 4, 1, 8, 1.0005)]
+    if tier != "quick":
+        cells += [(12000, 3, 1, 6, 0.9997), (9000, 5, 2, 10, 0.9995)]
+    for i, (n, every, msl, mil, decay) in enumerate(cells):
+        yield {"n": n, "every": every, "decay": decay, "seed": 9000 + i,
+               "params": {"anomaly_score": {"cls": "L2Cost"}, "threshold_scale": 0.001, "level": 0.01, "min_segment_length": msl,
+                          "max_interval_length": mil, "growth_factor": 2.0}}
+
+
+def check_many(case):
+    n = case["n"]
+    rng = np.random.Generator(np.random.PCG64(case["seed"]))
+    X = rng.standard_normal((n, 1)) * 0.001
+    k = 0
+    for t in range(1, n - 1, case["every"]):
+        X[t, 0] += 50.0 * case["decay"] ** k
+        k += 1
+    info = check({"params": case["params"], "X": X, "scale2": 1.5, "n_train": None, "history": None})
+    with sut("CircularBinarySegmentation.fit/predict (many anomalies)"):
+        n_anom = len(K.build(K.detector_spec("CircularBinarySegmentation", case["params"])).fit(X).predict(X))
+    info["classes"] = [c for c in info["classes"] if not c.startswith("scorer=")] + [f"anomalies>={n_anom // 500 * 500}"]
+    info["nontrivial"] = n_anom >= 1000
+    return info
+
+
 FACETS = [
     Facet(name="circular_binseg", check=check, strategy=cases,
           rule=("n in [2msl,30], msl from the scorer's minimum size, max_interval_length in [2msl, 2msl+14] or 1000, growth factor "
@@ -247,4 +284,8 @@ FACETS = [
                 "data in small / large units and integer Table/Function local scores (ties; long series 150-240 with a function score); detector optionally fitted on other data (shorter / longer / the same buffer refilled afterwards) and optionally with a past (scorer pre-fitted on wider data; earlier predict on the caller's array / frame, then refilled in place); "
                 "non-trivial = >= 1 anomaly"),
           n_quick=480, n_thorough=6000, shards_quick=16, shards_thorough=16),
+    Facet(name="many_anomalies", kind="enumerate", enumerate=many_cells, check=check_many, exhaustive=True, time_limit=600,
+          rule=("series of 3902 / 5000 samples (thorough: up to 12000) with a decaying burst every 3-5 samples: more than 1000 reported "
+                "anomalies, i.e. > 1000 rounds of the greedy selection; same per-candidate and greedy models; non-trivial = >= 1000 anomalies"),
+          shards_quick=2, shards_thorough=4, max_samples=1),
 ]
